@@ -2,6 +2,7 @@ package main
 
 import (
 	"fmt"
+	"go/types"
 	"math/big"
 	"sync/atomic"
 
@@ -293,6 +294,27 @@ func bigIntrinsics() map[string]intrinsic {
 			r := it.tt.Sym(64, "bitlen")
 			it.pr.Assume(it.tt.Cmp(OUle, r, it.tt.Const(64, uint64(xb))))
 			return Value{Ref: r}
+		},
+		"(*math/big.Int).SetString": func(it *Interp, fn *ssa.Function, args []Value) Value {
+			str, _ := args[1].Ref.(*Str)
+			if str == nil {
+				it.unsupported("big.Int.SetString on a non-string")
+			}
+			// symbolic digits are concretised (a fork per feasible byte value)
+			bs := make([]byte, str.Len())
+			for i := range bs {
+				bs[i] = byte(it.concInt(str.At(i), types.Typ[types.Uint8]))
+			}
+			base := int(it.concInt(args[2], types.Typ[types.Int]))
+			v, ok := new(big.Int).SetString(string(bs), base)
+			if !ok {
+				return Value{Ref: Tuple{Value{}, Value{Bits: 0}}}
+			}
+			if v.BitLen() > int(bigW)-3 {
+				it.unsupported("math/big model: literal wider than the model")
+			}
+			it.bigSet(args[0], it.tt.BigConst(bigW, v), v.BitLen()+1)
+			return Value{Ref: Tuple{args[0], Value{Bits: 1}}}
 		},
 		"(*math/big.Int).Text":   func(it *Interp, fn *ssa.Function, args []Value) Value { return mkStr("<big.Int>") },
 		"(*math/big.Int).String": func(it *Interp, fn *ssa.Function, args []Value) Value { return mkStr("<big.Int>") },
